@@ -1,12 +1,143 @@
-// Exclusions by construction of known findings (active only while listed as "known").
+// Exclusions by construction of known findings. Each is active only while the entry is
+// listed with status "known" in /verif/known_findings.json (rec.Known); with status
+// "fixed" or no entry nothing is excluded and the shape is checked like any other.
 package c02
 
-import "verif/harness/gobatch"
+import (
+	"go/token"
+	"math"
+	"strings"
 
-// knownCompile: the cell belongs to a known finding that shows when compiling it.
-func knownCompile(c *cell) string { return "" }
+	"verif/harness/gobatch"
+)
+
+func isVarFamily(sh *shape) bool {
+	switch sh.family {
+	case "var", "var-captured", "var-global", "var-global-boxed", "blank":
+		return true
+	}
+	return false
+}
+
+func isFloaty(k kindT) bool { return k.Class() == cFloat || k.Class() == cComplex }
+
+func (c *cell) isConst() bool { return c.rhs == "const" || c.rhs == "tconst" }
+
+func isZeroVal(k kindT, v val) bool {
+	switch k.Class() {
+	case cInt:
+		return v.i == 0
+	case cUint:
+		return v.u == 0
+	case cFloat:
+		return v.f == 0
+	case cComplex:
+		return v.c == 0
+	}
+	return false
+}
+
+func isPow2Const(k kindT, v val) bool {
+	var m uint64
+	switch k.Class() {
+	case cInt:
+		if v.i < 0 {
+			m = uint64(-v.i)
+		} else {
+			m = uint64(v.i)
+		}
+	case cUint:
+		m = v.u
+	default:
+		return false
+	}
+	return m >= 2 && m&(m-1) == 0
+}
+
+// special reports a component that is zero, infinite or NaN (where the identity
+// shortcuts x+0, x*1, x/1 ... differ from IEEE arithmetic) or, if neg, negative.
+func specialComponent(k kindT, v val, neg bool) bool {
+	sp := func(f float64) bool { return f == 0 || math.IsInf(f, 0) || f != f || (neg && f < 0) }
+	if k.Class() == cFloat {
+		return sp(v.f)
+	}
+	return sp(real(v.c)) || sp(imag(v.c))
+}
+
+// knownCompile: the whole cell belongs to a known finding.
+func knownCompile(c *cell) string {
+	k := c.t.k
+	if rec.Known("F-C02-2") && c.op.text == "^=" && !isVarFamily(c.sh) {
+		return "F-C02-2"
+	}
+	if rec.Known("F-C02-3") && c.op.cls == "shift" && !isVarFamily(c.sh) {
+		return "F-C02-3"
+	}
+	if rec.Known("F-C02-8") && c.op.text == "/=" && c.isConst() && isFloaty(k) && isZeroVal(k, c.c) {
+		return "F-C02-8"
+	}
+	if rec.Known("F-C02-10") && k.Name() == "complex128" && strings.Contains(c.sh.setup, "&x") {
+		return "F-C02-10"
+	}
+	return ""
+}
 
 // knownPair: the value pair of the cell belongs to a known finding.
-func knownPair(c *cell, a, y val, ex expect) string { return "" }
+func knownPair(c *cell, a, y val, ex expect) string {
+	k := c.t.k
+	if c.isConst() && c.op.text == "/=" && isIntClass(k) {
+		if rec.Known("F-C02-5") && c.sh.family == "var-global-boxed" && isPow2Const(k, c.c) {
+			return "F-C02-5"
+		}
+		if rec.Known("F-C02-6") && k.Class() == cUint && isVarFamily(c.sh) && c.c == minusOneOrMax(k) {
+			return "F-C02-6"
+		}
+	}
+	if rec.Known("F-C02-7") && c.isConst() && isFloaty(k) && c.op.cls == "arith" {
+		one, mone := oneOf(k), val{f: -1, c: -1}
+		if k.Class() == cFloat {
+			mone = val{f: -1}
+		} else {
+			mone = val{c: -1}
+		}
+		start := a
+		if c.sh.zero {
+			start = val{}
+		}
+		id := false
+		neg := false
+		switch c.op.tok {
+		case token.ADD, token.SUB:
+			id = isZeroVal(k, c.c)
+		case token.MUL:
+			id = isZeroVal(k, c.c) || sameVal(k, c.c, one) || sameVal(k, c.c, mone)
+			neg = isZeroVal(k, c.c)
+		case token.QUO:
+			id = sameVal(k, c.c, one) || sameVal(k, c.c, mone)
+		}
+		if id && specialComponent(k, start, neg) {
+			return "F-C02-7"
+		}
+	}
+	if rec.Known("F-C02-9") && readsUint64FarUp(c) {
+		return "F-C02-9"
+	}
+	return ""
+}
+
+// readsUint64FarUp: the statement reads a uint64-kind local variable (x for op= and
+// ++/--, y for rhs var/call) from inside >= 2 nested closures.
+func readsUint64FarUp(c *cell) bool {
+	if c.sh.depth < 2 {
+		return false
+	}
+	if (c.rhs == "var" || c.rhs == "call") && c.rt.k.Name() == "uint64" {
+		return true
+	}
+	if c.t.k.Name() == "uint64" && c.op.cls != "set" && (c.sh.family == "var-captured") {
+		return true
+	}
+	return false
+}
 
 func knownSeq(p gobatch.Program, got, want gobatch.Result) string { return "" }
